@@ -111,7 +111,7 @@ NameSegs(tokens, acc) ==
 ActorParts(a) ==
     CASE a.verb = "do" -> LET ss == NameSegs(a.an, <<>>) IN
                           [i \in DOMAIN ss |-> [t |-> IF i = 1 THEN "actor" ELSE "apart", n |-> ss[i], g |-> IF i = Len(ss) THEN "last" ELSE ""]]
-      [] a.verb = "need" -> Lits(<<"need", "direct">>)
+      [] a.verb \in {"need", "let"} -> Lits(<<"need", "direct">>)
       [] OTHER -> Lits(<<"poke", "direct">>)
 
 \* ---------------------------------------------------------------- the indirect address as parsed by the builder
@@ -173,6 +173,10 @@ Resolve(c, a) ==
     ELSE LET q == Substitute(c, a, Assemble(c, a)) IN
          IF q # <<>> /\ q[1] = Lit("") THEN Tail(q) ELSE q
 
+\* The moot framer S is cloned twice under the main frame (aux S as tag .., aux S as tag2 ..): the same acts live in both
+\* clones and each clone resolves them in its own context - Second(c) is the context of the act in the second clone
+Second(c) == [c EXCEPT !.tag = c.tag2, !.tag2 = c.tag]
+
 \* `main` needs an auxiliary context (otherwise the documented outcome is a ResolveError)
 Resolvable(c, a) == c.aux \/ ~HasMain(Assemble(c, a))
 
@@ -182,12 +186,12 @@ None == [k |-> "none", s |-> ""]
 \* names: an ordinary profile for the full product of inode kinds, and two profiles whose framer / frame / tag / actor
 \* names are proper substrings resp. superstrings of the key words me, main, framer, frame, actor (an explicit name is
 \* a name, however it is spelled) for a small set of inode kinds (names and inodes do not interact)
-PlainNames == [F |-> "fa", G |-> "fb", S |-> "sub", tag |-> "c1", f0 |-> "f0", f1 |-> "f1", g1 |-> "g1", s0 |-> "s0", s1 |-> "s1", A |-> "worker"]
-SubNames == [F |-> "ma", G |-> "m", S |-> "ai", tag |-> "n", f0 |-> "e", f1 |-> "mai", g1 |-> "ain", s0 |-> "a", s1 |-> "i", A |-> "m"]
-SupNames == [F |-> "main2", G |-> "mex", S |-> "framers", tag |-> "me2", f0 |-> "frame1", f1 |-> "actor1", g1 |-> "mainly", s0 |-> "mes",
+PlainNames == [F |-> "fa", G |-> "fb", S |-> "sub", tag |-> "c1", tag2 |-> "c2", f0 |-> "f0", f1 |-> "f1", g1 |-> "g1", s0 |-> "s0", s1 |-> "s1", A |-> "worker"]
+SubNames == [F |-> "ma", G |-> "m", S |-> "ai", tag |-> "n", tag2 |-> "a", f0 |-> "e", f1 |-> "mai", g1 |-> "ain", s0 |-> "a", s1 |-> "i", A |-> "m"]
+SupNames == [F |-> "main2", G |-> "mex", S |-> "framers", tag |-> "me2", tag2 |-> "mex2", f0 |-> "frame1", f1 |-> "actor1", g1 |-> "mainly", s0 |-> "mes",
              s1 |-> "framer2", A |-> "actors"]
 Ctx(nm, x, fi, oi, ni, ci, so, si) ==
-    [aux |-> x, F |-> nm.F, G |-> nm.G, S |-> nm.S, tag |-> nm.tag, f0 |-> nm.f0, f1 |-> nm.f1, g1 |-> nm.g1, s0 |-> nm.s0, s1 |-> nm.s1,
+    [aux |-> x, F |-> nm.F, G |-> nm.G, S |-> nm.S, tag |-> nm.tag, tag2 |-> nm.tag2, f0 |-> nm.f0, f1 |-> nm.f1, g1 |-> nm.g1, s0 |-> nm.s0, s1 |-> nm.s1,
      A |-> nm.A, fi |-> fi, oi |-> oi, ni |-> ni, ci |-> ci, so |-> so, si |-> si]
 Contexts ==
     {Ctx(PlainNames, FALSE, fi, oi, ni, None, None, None) : fi \in Inodes(FIs, "qf"), oi \in Inodes(OIs, "qo"), ni \in Inodes(NIs, "qn")}
@@ -223,7 +227,7 @@ OtherVerbRefs(c) == {Ref("root", <<"a", "x">>, "-", "-", "-"), Ref("me", <<"x">>
                      Ref("framer", <<"x">>, "", "-", "-"), Ref("frame", <<"x">>, "", "-", "-"), Ref("frame", <<"x">>, c.f0, c.F, "-")}
                     \cup (IF c.aux THEN {Ref("framer", <<"x">>, "main", "-", "-"), Ref("frame", <<"x">>, "main", "-", "-")} ELSE {})
 PlainActs(c) == {Plain("put", r) : r \in RefsIn(c)}
-                \cup {Plain(v, r) : v \in {"inc", "copy", "need"}, r \in OtherVerbRefs(c)}
+                \cup {Plain(v, r) : v \in {"inc", "copy", "need", "let"}, r \in OtherVerbRefs(c)}
                 \cup {Plain("need", Ref("actor", <<"x">>, "", "-", "-"))}
 DeedRefs(c) == {Ref("inode", <<>>, "-", "-", "-"), Ref("root", <<"x">>, "-", "-", "-"), Ref("root", <<"a", "x">>, "-", "-", "-"),
                 Ref("me", <<"x">>, "-", "-", "-"), Ref("abs", <<"a", "x">>, "-", "-", "-"), Ref("framer", <<"x">>, "me", "-", "-")}
@@ -242,13 +246,13 @@ ActsIn(c) == {a \in PlainActs(c) \cup DeedActs(c) : Resolvable(c, a)}
 \* rho = [kind, old]: kind in framer / frame / actor / tag
 Renamings(c) == {[kind |-> "framer", old |-> n] : n \in {c.F, c.G, c.S}}
                 \cup {[kind |-> "frame", old |-> n] : n \in {c.f0, c.f1, c.g1, c.s0, c.s1}}
-                \cup {[kind |-> "tag", old |-> c.tag], [kind |-> "actor", old |-> c.A], [kind |-> "actor", old |-> "work"], [kind |-> "actor", old |-> "n"],
+                \cup {[kind |-> "tag", old |-> c.tag], [kind |-> "tag", old |-> c.tag2], [kind |-> "actor", old |-> c.A], [kind |-> "actor", old |-> "work"], [kind |-> "actor", old |-> "n"],
                       [kind |-> "actor", old |-> "s"]}
 
 Ren(rho, kind, n) == IF rho.kind = kind /\ n = rho.old THEN Fresh ELSE n
 RenCtx(rho, c) == [c EXCEPT !.F = Ren(rho, "framer", @), !.G = Ren(rho, "framer", @), !.S = Ren(rho, "framer", @),
                             !.f0 = Ren(rho, "frame", @), !.f1 = Ren(rho, "frame", @), !.g1 = Ren(rho, "frame", @),
-                            !.s0 = Ren(rho, "frame", @), !.s1 = Ren(rho, "frame", @), !.tag = Ren(rho, "tag", @),
+                            !.s0 = Ren(rho, "frame", @), !.s1 = Ren(rho, "frame", @), !.tag = Ren(rho, "tag", @), !.tag2 = Ren(rho, "tag", @),
                             !.A = Ren(rho, "actor", @)]
 \* in a reference only the name positions are renamed (never the user's path text)
 RenRef(rho, r) ==
@@ -278,8 +282,13 @@ Chosen == case[2] # NoAct
 
 \* C13: consistently renaming a framer, frame or actor renames exactly the corresponding segments
 Equivariant ==
-    Chosen => \A rho \in Renamings(case[1]) :
-        Resolve(RenCtx(rho, case[1]), RenAct(rho, case[2])) = RenPath(rho, Resolve(case[1], case[2]))
+    Chosen => \A cc \in (IF case[1].aux THEN {case[1], Second(case[1])} ELSE {case[1]}) : \A rho \in Renamings(cc) :
+        Resolve(RenCtx(rho, cc), RenAct(rho, case[2])) = RenPath(rho, Resolve(cc, case[2]))
+
+\* the two clones of one moot framer resolve the same act alike, each through its own name
+SwapTags(c, p) == [i \in DOMAIN p |-> IF p[i].t = "clone" /\ p[i].g = c.tag THEN [p[i] EXCEPT !.g = c.tag2]
+                                       ELSE IF p[i].t = "clone" /\ p[i].g = c.tag2 THEN [p[i] EXCEPT !.g = c.tag] ELSE p[i]]
+BothClones == (Chosen /\ case[1].aux) => Resolve(Second(case[1]), case[2]) = SwapTags(case[1], Resolve(case[1], case[2]))
 
 \* C13: absolute references never depend on who uses them
 AbsoluteIndependent ==
@@ -303,7 +312,8 @@ ThroughNames ==
 \* ---------------------------------------------------------------- table for the harness (binding C)
 Seg(s) == <<s.t, s.n, s.g>>
 Row(c) == [ctx |-> c, acts |-> LET as == SetToSeq(ActsIn(c)) IN
-                               [i \in DOMAIN as |-> [act |-> as[i], path |-> [j \in DOMAIN Resolve(c, as[i]) |-> Seg(Resolve(c, as[i])[j])]]]]
+                               [i \in DOMAIN as |-> [act |-> as[i], path |-> [j \in DOMAIN Resolve(c, as[i]) |-> Seg(Resolve(c, as[i])[j])],
+                                                      path2 |-> IF c.aux THEN [j \in DOMAIN Resolve(Second(c), as[i]) |-> Seg(Resolve(Second(c), as[i])[j])] ELSE <<>>]]]
 Table == LET cs == SetToSeq(Contexts) IN [i \in DOMAIN cs |-> Row(cs[i])]
 ASSUME JsonSerialize(IOEnv.TABLE_OUT, Table)
 =============================================================================
